@@ -41,6 +41,8 @@ type Entry struct {
 	Run func(x *Checker, data []byte) Outcome
 	// TightOnly: skip the two slack (over-read differential) executions.
 	TightOnly bool
+	// Group replaces Name in over-read / input-modified keys (entry points sharing one code path).
+	Group string
 	// KeyTag is appended to panic keys found through this entry (e.g. "[direct-call]").
 	KeyTag string
 	// AllocKey overrides the violation key used by AllocScan ("C19:alloc:"+Name by default).
@@ -216,6 +218,13 @@ func (c *Checker) errClass(s string) string {
 }
 
 // Check executes one decoder case under all oracle clauses.
+func (e *Entry) group() string {
+	if e.Group != "" {
+		return e.Group
+	}
+	return e.Name
+}
+
 func (c *Checker) Check(e *Entry, data []byte, note string) Outcome {
 	c.R.Eval()
 	c.cur, c.curData, c.curNote, c.busy = e, data, note, true
@@ -236,7 +245,7 @@ func (c *Checker) Check(e *Entry, data []byte, note string) Outcome {
 		return o1
 	}
 	if !bytes.Equal(in, data) {
-		c.Violation("C19:input-modified:"+e.Name, "decoder wrote into its input buffer: now %x", in)
+		c.Violation("C19:input-modified:"+e.group(), "decoder wrote into its input buffer: now %x", in)
 	}
 	// (2) slack: cap > len, poison behind the data; the outcome must not depend on it
 	if !e.TightOnly {
@@ -256,10 +265,10 @@ func (c *Checker) Check(e *Entry, data []byte, note string) Outcome {
 				changed = buf[i] != p
 			}
 			if changed {
-				c.Violation("C19:input-modified:"+e.Name, "decoder wrote into its input buffer or behind it (poison %02x)", p)
+				c.Violation("C19:input-modified:"+e.group(), "decoder wrote into its input buffer or behind it (poison %02x)", p)
 			}
 			if o2 != o1 {
-				c.Violation("C19:over-read:"+e.Name,
+				c.Violation("C19:over-read:"+e.group(),
 					"result depends on bytes behind len(data): with cap==len -> ok=%v err=%q val=%.200q; with %d bytes of %02x behind the data (inside cap) -> ok=%v err=%q val=%.200q",
 					o1.OK, o1.Err, o1.Val, Slack, p, o2.OK, o2.Err, o2.Val)
 				break
